@@ -94,7 +94,9 @@ def execute(cases, out, timeout_ms=20000, dom_max=20000, steps_every=0):
 TLC_STATS = re.compile(r'(\d+) states generated, (\d+) distinct states found')
 
 
-def run_tlc(module_dir, module, cfg, env=None, workers=1, heap='3g', timeout=3600, simulate=None, depth=None, extra=None, jit='c1'):
+def run_tlc(module_dir, module, cfg, env=None, workers=1, heap='3g', timeout=3600, simulate=None, depth=None, extra=None, jit='c1', out_path=None):
+    """Run TLC.  Returns (rc, output); with out_path the output goes to that file instead (large
+    behaviour emissions) and the returned output is empty."""
     meta = os.path.join(WORK, 'tlcmeta', '%s_%d_%d' % (module, os.getpid(), int(time.time() * 1e6) % 10**9))
     os.makedirs(meta, exist_ok=True)
     e = dict(os.environ)
@@ -113,12 +115,16 @@ def run_tlc(module_dir, module, cfg, env=None, workers=1, heap='3g', timeout=360
         args += extra
     args.append(module + '.tla')
     try:
-        p = subprocess.run(args, cwd=module_dir, env=e, stdout=subprocess.PIPE, stderr=subprocess.STDOUT, text=True, timeout=timeout)
+        if out_path:
+            with open(out_path, 'w') as fo:
+                p = subprocess.run(args, cwd=module_dir, env=e, stdout=fo, stderr=subprocess.STDOUT, timeout=timeout)
+        else:
+            p = subprocess.run(args, cwd=module_dir, env=e, stdout=subprocess.PIPE, stderr=subprocess.STDOUT, text=True, timeout=timeout)
     except subprocess.TimeoutExpired:
         shutil.rmtree(meta, ignore_errors=True)
         raise ToolError('TLC timeout on %s' % module)
     shutil.rmtree(meta, ignore_errors=True)
-    return p.returncode, p.stdout
+    return p.returncode, ('' if out_path else p.stdout)
 
 
 def parse_stats(out):
